@@ -2,6 +2,8 @@
 """Regenerates /verif/MANIFEST.json from the table below (one place to edit)."""
 import json
 import os
+import sys
+sys.path.insert(0, os.path.dirname(os.path.abspath(__file__)))
 
 VERIF = os.path.dirname(os.path.dirname(os.path.abspath(__file__)))
 
@@ -27,7 +29,16 @@ CHECKS["C06"] = ("proof", "structural rules over the MIR of each container impl:
                  "For all inputs: result collections are fresh, receive exactly the Ok payload of the same iteration's child by push/insert once per iteration, the loop runs over the input's own iterator (enumerate only) and the collection reaches Ok untouched; arrays/tuples compare len with their arity by != before any element work and report the whole sequence with that arity; tuple step k ↔ component k ↔ field k; Option gives None only on Null and otherwise delegates; maps key each entry by from_str of its own key and report an unparsable key by name; CS delegates to CS::from_str.",
                  TB + "; std collection semantics (push/insert/try_into order, set collapse, key equality); Sequence::len agrees with the iterator", "§5 C06")
 
-NOT_YET = {p: 'check not yet built in this revision of /verif (construction order in DESIGN.md §8); will be claimed when its rule set is armed' for p in ['C05'] + ['C%02d' % i for i in range(7, 21)]}
+DERIVE_NOTE = TB + "; catgen.py reference semantics; verdict per catalogue entry (hand-written base covering every template branch + VERIF_SEED-generated combinations); user functions opaque"
+for _p, _t in (("C07", "derive skeleton recovered from expanded, type-checked MIR compared with an independent spec of the documented key renaming"),
+               ("C08", "derive skeleton vs spec: initial field states, arm states, missing-field phase, FieldState helper summaries"),
+               ("C09", "derive skeleton vs spec: contents and effects of the all-comparisons-false arm, tag removal before iteration"),
+               ("C10", "derive skeleton vs spec: tag removal, tag/variant string dispatch tables, fall-through edges"),
+               ("C11", "derive skeleton vs spec: call sites of user functions, their dominators and argument provenance")):
+    import derive_prop as _dp
+    CHECKS[_p] = ("other", _t, _dp.TEXT[_p], DERIVE_NOTE, "§5 " + _p)
+
+NOT_YET = {p: 'check not yet built in this revision of /verif (construction order in DESIGN.md §8); will be claimed when its rule set is armed' for p in ['C05'] + ['C%02d' % i for i in range(12, 21)]}
 
 
 def main():
